@@ -641,11 +641,16 @@ def pumpStream (fuel : Nat) (st : State) (id : Nat) : State × List Frame :=
       let (st2, fs2) := pumpStream fuel st1 id
       (st2, fs1 ++ fs2)
 
+/-- enough iterations to empty the scratch buffer of stream `id` (each DATA frame takes ≥ 1 byte) -/
+def pumpFuel (st : State) (id : Nat) : Nat :=
+  match findStream st.streams id with
+  | some s => s.chunk + 2
+  | none => 0
+
 def pumpAll (st : State) : List Nat → State × List Frame
   | [] => (st, [])
   | id :: ids =>
-    let fuel := match findStream st.streams id with | some s => s.chunk + 2 | none => 0
-    let (st1, fs1) := pumpStream fuel st id
+    let (st1, fs1) := pumpStream (pumpFuel st id) st id
     let (st2, fs2) := pumpAll st1 ids
     (st2, fs1 ++ fs2)
 
